@@ -29,6 +29,7 @@ type Obl struct {
 }
 
 type PathScript struct {
+	Slow   bool // contract flagged `slow`: the per-query time limit is multiplied
 	ID     int
 	Func   string
 	Script string
